@@ -7,6 +7,7 @@ import TonicModel.Lemmas.ShutdownTrack
 import TonicModel.Lemmas.ShutdownContract
 import TonicModel.Lemmas.ShutdownTimeout
 import TonicModel.Lemmas.ShutdownBurst
+import TonicModel.Model.ShutdownPair
 /-
 C13 — Graceful shutdown loses no accepted call.  Property theorems only; the invariant and its
 preservation are in `Lemmas/Shutdown`, the oracle in `Spec/Shutdown`.
@@ -844,5 +845,82 @@ example : ∃ H : Hyper, HyperGracefulContract H ∧ H.handshake ≠ hyperModel.
   intro h
   have := congrFun h (Conn.new false false)
   simp [hyperModel, Conn.new] at this
+
+-- ------------------------------------------------------------------ sibling servers (one builder, two servers)
+
+/-- SIBLING SERVERS SHARE NOTHING.  Two servers made by `add_service` on one `Server` builder value
+(`add_service` clones the builder; the watch channel, the `Fuse`s and the connection tasks are
+created per `serve_internal` call) run as the product of two copies of the transition system: along
+ANY interleaving of their steps, each server's own steps - in order - are a run of that server
+alone, ending in its component of the final state.  So everything proved of `Reachable` states and
+of `run` holds of each of the two, whatever the other one does: its signal, its connections, its
+calls, its resolution. -/
+theorem C13_sibling_servers_independent (ls : List (Side × Label)) :
+    ∀ (p p' : Pair), runPair p ls = some p' →
+      run p.a (labelsOf .a ls) = some p'.a ∧ run p.b (labelsOf .b ls) = some p'.b := by
+  induction ls with
+  | nil =>
+    intro p p' h
+    simp [runPair] at h
+    subst h
+    simp [labelsOf, run]
+  | cons x ls ih =>
+    intro p p' h
+    obtain ⟨sd, l⟩ := x
+    simp only [runPair] at h
+    cases sd with
+    | a =>
+      cases hs : step p.a l with
+      | none => simp [stepPair, hs] at h
+      | some s =>
+        simp only [stepPair, hs, Option.map_some] at h
+        have := ih _ _ h
+        simpa [labelsOf, run, hs] using this
+    | b =>
+      cases hs : step p.b l with
+      | none => simp [stepPair, hs] at h
+      | some s =>
+        simp only [stepPair, hs, Option.map_some] at h
+        have := ih _ _ h
+        simpa [labelsOf, run, hs] using this
+
+/-- A server is untouched by whatever a sibling built from the same builder goes through (its
+shutdown signal, its drain, its resolution): if only the sibling takes steps, this server's state
+is what it was. -/
+theorem C13_sibling_untouched (ls : List (Side × Label)) (p p' : Pair)
+    (h : runPair p ls = some p') (hs : ∀ x ∈ ls, x.1 = Side.a) : p'.b = p.b := by
+  have hb := (C13_sibling_servers_independent ls p p' h).2
+  have : labelsOf .b ls = [] := by
+    simp only [labelsOf, List.filterMap_eq_nil_iff]
+    intro x hx
+    have := hs x hx
+    simp [this]
+  rw [this] at hb
+  simpa [run] using hb.symm
+
+/-- Both servers of a pair started from initial states stay within the reachable states of a lone
+server (so `C13_no_accept_after_signal`, `C13_resolve_only_when_all_closed`, … apply to each). -/
+theorem C13_sibling_servers_reachable (g g' b a a' t t' : Bool) (ls : List (Side × Label)) (p' : Pair)
+    (h : runPair { a := init g b a t, b := init g' b a' t' } ls = some p') :
+    Reachable g b a p'.a ∧ Reachable g' b a' p'.b := by
+  have := C13_sibling_servers_independent ls _ p' h
+  exact ⟨reachable_run (.init t) this.1, reachable_run (.init t') this.2⟩
+
+/-- The serve future of one server waits for its OWN receivers only: `resolve` is enabled in the
+pair exactly when it is enabled for that server alone - whatever connections the sibling has. -/
+theorem C13_sibling_resolve_waits_for_own_connections_only (p : Pair) :
+    (stepPair p .a .resolve).isSome
+      = (p.a.afterDone && !p.a.resolved && (!p.a.cfgGraceful || receiverCount p.a == 0)) := by
+  simp only [stepPair, step]
+  split <;> simp_all
+
+/-- … and this is false of a builder that carries the watch channel (shared by its clones): a
+server whose signal fired and which has no connection at all cannot resolve while its sibling is
+merely running (the sibling's `signal_rx` is a receiver of the shared channel). -/
+theorem C13_sibling_resolve_fails_with_shared_channel :
+    ∃ p : Pair, receiverCount p.a = 0 ∧ p.a.afterDone = true ∧ p.a.conns = []
+      ∧ (stepPair p .a .resolve).isSome = true ∧ (stepPairShared p .a .resolve).isSome = false := by
+  refine ⟨{ a := ((run (init true true false) [.sigFire, .loopSig, .afterLoop]).getD (init true true false)),
+            b := init true true false }, ?_, ?_, ?_, ?_, ?_⟩ <;> decide
 
 end C13
